@@ -20,7 +20,7 @@ func init() {
 		ID: "C14", Section: "4 C14",
 		Technique: "map-order effect classification (syntax tree + types) of every `range` over a map in the config-loading, routing and balancing packages, with a reviewed exception table whose entries carry machine-checked side conditions",
 		Meta: core.Meta{
-			Level: "other",
+			Level:       "other",
 			Explanation: "Enumerates every `for … range <map>` of bfe_config/**, bfe_route/** and bfe_balance/** and classifies each effect of the loop body on state that outlives the iteration: order-insensitive are stores keyed by the range key itself, keyed stores of a constant, keyed stores dominated by a reject-duplicate test on the same container and key, commutative numeric accumulation, constant flag assignment, early return of an error or of constants, effects confined to the per-key element; order-sensitive (violations) are appends to an outer slice that is not sorted afterwards in the same function, keyed stores / ordered-sink calls (Trie.Set, radix Insert) whose key is not the range key and has no duplicate guard, string concatenation, non-constant assignment to an outer variable, returning a loop element. Anything not classifiable must be in the reviewed table (one entry per function+effect, with a reason; some entries are valid only while a checked side condition holds, e.g. the loader rejects hosts that are equal after lower-casing). Not covered: nondeterminism from other sources (time, rand — see C01/C02), order effects hidden inside callees that receive only per-key arguments.",
 			RuleText:    "obligations = one per effect site of each map-range loop (keyed by function, effect kind, target), plus the side conditions of the reviewed entries; loop count asserted >= 50",
 		},
@@ -49,9 +49,9 @@ type mapLoop struct {
 
 type effect struct {
 	kind, target, why string
-	pos                token.Pos
-	sensitive          bool
-	undecided          bool
+	pos               token.Pos
+	sensitive         bool
+	undecided         bool
 }
 
 func runC14(c *core.Ctx) {
@@ -163,11 +163,11 @@ type c14Exception struct {
 // c14Reviewed: effects the classifier cannot decide by shape, each with the
 // reason it is order-insensitive (key = function:kind:target).
 var c14Reviewed = map[string]c14Exception{
-	"bfe_balance.BalTable.gslbInit:append:fails":        {reason: "names are only joined into an error message; accept/reject does not depend on their order"},
-	"bfe_balance.BalTable.backendInit:append:fails":     {reason: "names are only joined into an error message"},
-	"bfe_balance.BalTable.BalTableReload:append:fails":  {reason: "names are only joined into an error message"},
-	"bfe_route.buildHostRoute:ordered-sink:hostTrie.Set": {reason: "the trie key is lower(host); HostRuleConfLoad rejects two hosts that are equal after lower-casing, so keys are distinct", side: hostLoaderFoldsCase},
-	"bfe_route.buildHostRoute:assign:host":               {reason: "loop variable re-assigned (per-iteration local)"},
+	"bfe_balance.BalTable.gslbInit:append:fails":                                 {reason: "names are only joined into an error message; accept/reject does not depend on their order"},
+	"bfe_balance.BalTable.backendInit:append:fails":                              {reason: "names are only joined into an error message"},
+	"bfe_balance.BalTable.BalTableReload:append:fails":                           {reason: "names are only joined into an error message"},
+	"bfe_route.buildHostRoute:ordered-sink:hostTrie.Set":                         {reason: "the trie key is lower(host); HostRuleConfLoad rejects two hosts that are equal after lower-casing, so keys are distinct", side: hostLoaderFoldsCase},
+	"bfe_route.buildHostRoute:assign:host":                                       {reason: "loop variable re-assigned (per-iteration local)"},
 	"bfe_config/bfe_tls_conf/tls_rule_conf.ClientCALoad:keyed-store:clientCAMap": {reason: "stored only when the key is absent and the value is loaded from the CA named by the key itself, so every writer of a key stores an equal value"},
 }
 
@@ -177,9 +177,9 @@ var c14Reviewed = map[string]c14Exception{
 // applies to the name before its duplicate test - otherwise two configured names collapse onto
 // one trie key and the map iteration order decides which one wins.
 var hostKeyTransformers = map[string]string{
-	"strings.ToLower":                 "strings.ToLower",       // folds case
+	"strings.ToLower":                "strings.ToLower",       // folds case
 	"string_reverse.ReverseFqdnHost": "strings.TrimSuffix(.)", // reverses and drops one trailing dot (FQDN form)
-	"strings.Split":                   "",                      // injective
+	"strings.Split":                  "",                      // injective
 }
 
 func hostLoaderFoldsCase(c *core.Ctx) (bool, string) {
@@ -190,35 +190,59 @@ func hostLoaderFoldsCase(c *core.Ctx) (bool, string) {
 	}
 	need := map[string]bool{}
 	bad := ""
+	// values derived from the range key of the loop over the configured hosts (followed through
+	// assignments in source order, so renamed locals and named intermediates are recognised)
+	derived := map[types.Object]bool{}
+	mentions := func(e ast.Expr) bool {
+		found := false
+		ast.Inspect(e, func(m ast.Node) bool {
+			if id, isI := m.(*ast.Ident); isI && derived[bpk.TypesInfo.ObjectOf(id)] {
+				found = true
+			}
+			return true
+		})
+		return found
+	}
 	ast.Inspect(bd.Body, func(n ast.Node) bool {
-		call, isC := n.(*ast.CallExpr)
-		if !isC {
-			return true
-		}
-		fn := types.ExprString(call.Fun)
-		if _, isConv := bpk.TypesInfo.Types[call.Fun]; isConv && bpk.TypesInfo.Types[call.Fun].IsType() {
-			return true
-		}
-		// only calls that take (an expression containing) the loop's host variable
-		usesHost := false
-		for _, a := range call.Args {
-			ast.Inspect(a, func(m ast.Node) bool {
-				if id, isI := m.(*ast.Ident); isI && id.Name == "host" {
-					usesHost = true
+		switch x := n.(type) {
+		case *ast.RangeStmt:
+			if tv, okT := bpk.TypesInfo.Types[x.X]; okT {
+				if _, isMap := tv.Type.Underlying().(*types.Map); isMap {
+					if id, isI := x.Key.(*ast.Ident); isI && id.Name != "_" {
+						derived[bpk.TypesInfo.ObjectOf(id)] = true
+					}
 				}
+			}
+		case *ast.AssignStmt:
+			for i, r := range x.Rhs {
+				if mentions(r) && i < len(x.Lhs) {
+					if id, isI := x.Lhs[i].(*ast.Ident); isI {
+						derived[bpk.TypesInfo.ObjectOf(id)] = true
+					}
+				}
+			}
+		case *ast.CallExpr:
+			if tv, isConv := bpk.TypesInfo.Types[x.Fun]; isConv && tv.IsType() {
 				return true
-			})
-		}
-		if !usesHost || strings.HasSuffix(fn, ".Set") {
-			return true
-		}
-		norm, known := hostKeyTransformers[fn]
-		if !known {
-			bad = fn
-			return true
-		}
-		if norm != "" {
-			need[norm] = true
+			}
+			fn := types.ExprString(x.Fun)
+			uses := false
+			for _, a := range x.Args {
+				if mentions(a) {
+					uses = true
+				}
+			}
+			if !uses || strings.HasSuffix(fn, ".Set") {
+				return true
+			}
+			norm, known := hostKeyTransformers[fn]
+			if !known {
+				bad = fn
+				return true
+			}
+			if norm != "" {
+				need[norm] = true
+			}
 		}
 		return true
 	})
@@ -228,63 +252,81 @@ func hostLoaderFoldsCase(c *core.Ctx) (bool, string) {
 	if len(need) == 0 {
 		return false, "buildHostRoute no longer normalises the host name in a form the rule can follow"
 	}
-	fd, pk := c.P.FuncDecl("bfe_config/bfe_route_conf/host_rule_conf", "HostRuleConfLoad")
-	if fd == nil {
+	const lpkg = "bfe_config/bfe_route_conf/host_rule_conf"
+	fd0, pk := c.P.FuncDecl(lpkg, "HostRuleConfLoad")
+	if fd0 == nil {
 		return false, "HostRuleConfLoad not found"
+	}
+	// the loader and the same-package helpers it calls (the conversion loops may live in a helper)
+	var bodies []*ast.BlockStmt
+	if lf := c.P.Func(lpkg, "HostRuleConfLoad"); lf != nil {
+		for _, f := range core.TransitiveCallees(lf, 3) {
+			if core.FuncPkgRel(f) != lpkg || f.Parent() != nil {
+				continue
+			}
+			if d, _ := c.P.FuncDecl(lpkg, strings.TrimPrefix(core.FuncKey(f), lpkg+".")); d != nil && d.Body != nil {
+				bodies = append(bodies, d.Body)
+			}
+		}
+	}
+	if len(bodies) == 0 {
+		bodies = append(bodies, fd0.Body)
 	}
 	ok := false
 	missing := ""
-	ast.Inspect(fd.Body, func(n ast.Node) bool {
-		rs, isR := n.(*ast.RangeStmt)
-		if !isR {
-			return true
-		}
-		v, _ := rs.Value.(*ast.Ident)
-		if v == nil {
-			return true
-		}
-		vobj := pk.TypesInfo.ObjectOf(v)
-		// leading statement(s) v = f(v): collect the normalisers applied before any index by v
-		have := map[string]bool{}
-		for _, st := range rs.Body.List {
-			if as, isA := st.(*ast.AssignStmt); isA && len(as.Lhs) == 1 && len(as.Rhs) == 1 {
-				if id, isI := as.Lhs[0].(*ast.Ident); isI && pk.TypesInfo.ObjectOf(id) == vobj {
-					ast.Inspect(as.Rhs[0], func(m ast.Node) bool {
-						call, isC := m.(*ast.CallExpr)
-						if !isC {
-							return true
-						}
-						switch types.ExprString(call.Fun) {
-						case "strings.ToLower":
-							have["strings.ToLower"] = true
-						case "strings.TrimSuffix":
-							if len(call.Args) == 2 {
-								if tv, okT := pk.TypesInfo.Types[call.Args[1]]; okT && tv.Value != nil && tv.Value.ExactString() == "\".\"" {
-									have["strings.TrimSuffix(.)"] = true
+	for _, body := range bodies {
+		ast.Inspect(body, func(n ast.Node) bool {
+			rs, isR := n.(*ast.RangeStmt)
+			if !isR {
+				return true
+			}
+			v, _ := rs.Value.(*ast.Ident)
+			if v == nil {
+				return true
+			}
+			vobj := pk.TypesInfo.ObjectOf(v)
+			// leading statement(s) v = f(v): collect the normalisers applied before any index by v
+			have := map[string]bool{}
+			for _, st := range rs.Body.List {
+				if as, isA := st.(*ast.AssignStmt); isA && len(as.Lhs) == 1 && len(as.Rhs) == 1 {
+					if id, isI := as.Lhs[0].(*ast.Ident); isI && pk.TypesInfo.ObjectOf(id) == vobj {
+						ast.Inspect(as.Rhs[0], func(m ast.Node) bool {
+							call, isC := m.(*ast.CallExpr)
+							if !isC {
+								return true
+							}
+							switch types.ExprString(call.Fun) {
+							case "strings.ToLower":
+								have["strings.ToLower"] = true
+							case "strings.TrimSuffix":
+								if len(call.Args) == 2 {
+									if tv, okT := pk.TypesInfo.Types[call.Args[1]]; okT && tv.Value != nil && tv.Value.ExactString() == "\".\"" {
+										have["strings.TrimSuffix(.)"] = true
+									}
 								}
 							}
-						}
-						return true
-					})
-					continue
-				}
-			}
-			if ifs, isIf := st.(*ast.IfStmt); isIf && strings.Contains(types.ExprString(ifs.Cond), "["+v.Name+"]") && endsWithReturn(ifs.Body) {
-				all := true
-				for k := range need {
-					if !have[k] {
-						all = false
-						missing = k
+							return true
+						})
+						continue
 					}
 				}
-				if all {
-					ok = true
+				if ifs, isIf := st.(*ast.IfStmt); isIf && strings.Contains(types.ExprString(ifs.Cond), "["+v.Name+"]") && endsWithReturn(ifs.Body) {
+					all := true
+					for k := range need {
+						if !have[k] {
+							all = false
+							missing = k
+						}
+					}
+					if all {
+						ok = true
+					}
 				}
+				break
 			}
-			break
-		}
-		return true
-	})
+			return true
+		})
+	}
 	if !ok {
 		if missing != "" {
 			return false, "HostRuleConfLoad's duplicate test does not apply " + missing + " to the host name although the trie key does: two configured names can collapse onto one key"
